@@ -1,10 +1,10 @@
 (* Property C04 -- the lifted IL computes the documented result and flags for every operand value.
-   Statements only; proofs are in Proofs/AluProofs.v, ExecProofs.v, ExecProofs2.v, ExecMemProofs.v, ExecAluMemProofs.v and ExecLoopProofs.v.
+   Statements only; proofs are in Proofs/AluProofs.v, ExecProofs.v, ExecProofs2.v, ExecMemProofs.v, ExecAluMemProofs.v, ExecLoopProofs.v, ExecRmwProofs.v and ExecRmwProofs2.v.
    Model: Model/IL.v (evaluator) + Model/Lift.v (lifter), tied to the Python code by IL-text and execution
    correspondence on every run; documented semantics: Model/Spec.v (README instruction tables). *)
 From Coq Require Import ZArith NArith List Bool.
 From BE Require Import Model.TableTypes Gen.Tables Model.Regs Model.Decode Model.IL Model.Lift Model.Static Model.Spec
-  Model.Emu Proofs.AluProofs Proofs.ExecProofs Proofs.AccessProofs Proofs.ExecProofs2 Proofs.ExecProofs3 Proofs.ExecMemProofs Proofs.ExecPtrProofs Proofs.ExecStackProofs Proofs.ExecAluMemProofs Proofs.ExecLoopProofs.
+  Model.Emu Proofs.AluProofs Proofs.ExecProofs Proofs.AccessProofs Proofs.ExecProofs2 Proofs.ExecProofs3 Proofs.ExecMemProofs Proofs.ExecPtrProofs Proofs.ExecStackProofs Proofs.ExecAluMemProofs Proofs.ExecLoopProofs Proofs.ExecRmwProofs Proofs.ExecRmwProofs2.
 Import ListNotations.
 Open Scope Z_scope.
 
@@ -126,6 +126,27 @@ Theorem C04_alu_A_imem_exact :
   map (fun c => (c, [PReg RA 1; PIMem 1])) [I_ADD; I_SUB; I_ADC; I_SBC; I_AND; I_OR; I_XOR].
 Proof. split; [|split; [|split; [|split; [|split; [|split; [|split; [|exact alu_mem_opcodes_check]]]]]]]; [exact add_A_imem | exact sub_A_imem | exact adc_A_imem | exact sbc_A_imem | exact and_A_imem | exact or_A_imem | exact xor_A_imem]. Qed.
 Print Assumptions C04_alu_A_imem_exact.
+
+(* read-modify-write on internal memory: ADD/SUB/ADC/SBC/AND/OR/XOR (n),imm and (n),A, INC/DEC (n), with no prefix and with each
+   of the 15 prefixes, every n, every immediate, every carry-in, byte memory: the cell the prefix's addressing mode names holds
+   exactly the documented result, C and Z (Z only for the logic operations and INC/DEC) are as documented, and no other
+   register, flag or byte changes *)
+Theorem C04_alu_imem_destination_exact :
+  (forall opc, In opc [65; 73; 81; 89; 113; 121; 105]%N -> rmw_is_spec opc (fun n k => [OIMem 1 n; OImm8 k]) 3) /\
+  (forall opc, In opc [67; 75; 83; 91; 115; 123; 107]%N -> rmw_is_spec opc (fun n _ => [OIMem 1 n; OReg RA 1]) 2) /\
+  (forall opc, In opc [109; 125]%N -> rmw_is_spec opc (fun n _ => [OIMem 1 n]) 2) /\
+  map (fun o => (d_cls (entry_of o), d_ops (entry_of o))) [65; 73; 81; 89; 113; 121; 105; 67; 75; 83; 91; 115; 123; 107; 109; 125]%N =
+  map (fun c => (c, [PIMem 1; PImm8])) [I_ADD; I_SUB; I_ADC; I_SBC; I_AND; I_OR; I_XOR] ++
+  map (fun c => (c, [PIMem 1; PReg RA 1])) [I_ADD; I_SUB; I_ADC; I_SBC; I_AND; I_OR; I_XOR] ++
+  [(I_INC, [PIMem 1]); (I_DEC, [PIMem 1])].
+Proof.
+  split; [intros opc [<- | [<- | [<- | [<- | [<- | [<- | [<- | []]]]]]]];
+          [exact add_imem_imm | exact sub_imem_imm | exact adc_imem_imm | exact sbc_imem_imm | exact and_imem_imm | exact or_imem_imm | exact xor_imem_imm]|].
+  split; [intros opc [<- | [<- | [<- | [<- | [<- | [<- | [<- | []]]]]]]];
+          [exact add_imem_A | exact sub_imem_A | exact adc_imem_A | exact sbc_imem_A | exact and_imem_A | exact or_imem_A | exact xor_imem_A]|].
+  split; [intros opc [<- | [<- | []]]; [exact inc_imem | exact dec_imem]|exact rmw_opcodes_check].
+Qed.
+Print Assumptions C04_alu_imem_destination_exact.
 
 (* counted instructions for EVERY count: MVL (m),(n) and MVLD (m),(n) with no prefix and with each of the 15 prefixes, every m
    and n, every I = 0 .. 65535 (induction over the iterations of the lifted label/if/goto loop, no bound on their number): the
